@@ -484,6 +484,12 @@ func TestCrashVerify(t *testing.T) {
 			return
 		}
 	}
+	// a token issued by the recovered instance has to survive the next restart: the signing key the instance works with
+	// after the crash is the one in the file
+	tokenAfter := ""
+	if key, ok := st.GetAuthorizer().(api.Key); ok {
+		tokenAfter, _ = key.NewToken("verifier")
+	}
 	// a second reopen changes nothing
 	firstDone := inlineRunDone
 	st.Stop(nil)
@@ -494,10 +500,18 @@ func TestCrashVerify(t *testing.T) {
 		return
 	}
 	hc.Close()
-	_, hc2, _, err := inlineStore(dir, rootParam)
+	st2, hc2, _, err := inlineStore(dir, rootParam)
 	if err != nil {
 		fail("reopen-twice", "second reopen failed: %v", err)
 		return
+	}
+	if tokenAfter != "" {
+		if key, ok := st2.GetAuthorizer().(api.Key); ok {
+			if valid, _ := key.ValidToken(tokenAfter); !valid {
+				fail("signing-key", "a token issued by the recovered instance is no longer valid after the next restart: the token-signing key the instance used after the crash was not the one in the file")
+				return
+			}
+		}
 	}
 	edges2, err := dumpInline(hc2)
 	if err != nil || len(edges2) != len(edges) {
